@@ -18,6 +18,10 @@ NextGC == \/ OpenRelation(TRUE)
           \/ (Len(curMembers) >= 2 /\ CloseRelation)
           \/ Prepare \/ Feed \/ Finish
 SpecGC == Init /\ [][NextGC]_vars
+(* negative ids: the file order (0, then negative ids by absolute value, then positive ids) differs from the numeric order
+   the members database is sorted by *)
+RefsNeg == {<<"n", -1>>, <<"n", -2>>, <<"n", -3>>, <<"n", 1>>, <<"w", -1>>, <<"w", -2>>}
+StreamNeg == << <<"n", -1>>, <<"n", -2>>, <<"n", -3>>, <<"n", 1>>, <<"n", 2>>, <<"w", -1>>, <<"w", -2>>, <<"r", 1>>, <<"r", 2>>, <<"r", 5>> >>
 AllTypes == {"n", "w", "r"}
 TNone == {}
 TN == {"n"}
